@@ -1139,3 +1139,68 @@ package yqlib
 //@   loop 2:
 //@     invariant @position (matchEl == nil && iter() == len(context.MatchingNodes)) || (matchEl != nil && elList(matchEl) == context.MatchingNodes && elIdx(matchEl) == iter())
 //@     invariant fresh(results) && validCtx(context)
+
+// ---------------------------------------------------------------------------------------------
+// operator_anchors_aliases.go: explode (C13)
+//
+// The contracts are one level deep; the whole-tree statement follows by induction over the recursion (each
+// recursive call is checked against, and assumed to meet, the same contract). Panic-freedom of these mutually
+// recursive tree walkers is not claimed (it needs a tree-shape invariant the contracts do not carry).
+
+//@ pred exploded1(n) = n.Anchor == "" && (n.Kind != AliasNode || n.Alias == nil)
+//@ pred anchorsOnlyRemoved() = allnodes(m, implies(preexisting(m) && old(m.Anchor) == "", m.Anchor == ""))
+
+//@ func explodeNode
+//@   props C13
+//@   nosafety
+//@   assume @alias-target-is-no-alias implies(node.Alias != nil, node.Alias.Kind != AliasNode)
+//@   assume @children-non-nil implies(node.Alias != nil, forall(i, 0, len(node.Alias.Content), node.Alias.Content[i] != nil))
+//@   modifies anynode.Anchor, anynode.Kind, anynode.Style, anynode.Tag, anynode.Value, anynode.Alias, anynode.Content
+//@   ensures @no-anchor-left {C13} implies(result == nil, node.Anchor == "")
+//@   ensures @alias-becomes-its-target {C13} implies(old(node.Kind) == AliasNode && old(node.Alias) != nil, result == nil && node.Kind == old(node.Alias.Kind) && node.Kind != AliasNode && node.Value == old(node.Alias.Value) && node.Tag == old(node.Alias.Tag) && node.Style == old(node.Alias.Style) && node.Alias == nil && len(node.Content) == len(old(node.Content)) + len(old(node.Alias.Content)))
+//@   ensures @copied-content-exploded {C13} implies(result == nil && old(node.Kind) == AliasNode && old(node.Alias) != nil, forall(i, 0, len(node.Content), exploded1(node.Content[i])))
+//@   ensures @scalars-untouched {C13} implies(old(node.Kind) == ScalarNode, result == nil && node.Kind == ScalarNode && node.Value == old(node.Value) && node.Tag == old(node.Tag) && node.Style == old(node.Style))
+//@   ensures @anchors-only-removed {C13} anchorsOnlyRemoved()
+//@   loop 1:
+//@     invariant node.Anchor == "" && anchorsOnlyRemoved()
+//@   loop 3:
+//@     invariant node.Anchor == "" && anchorsOnlyRemoved()
+
+//@ func reconstructAliasedMap
+//@   props C13
+//@   nosafety
+//@   assume @children-non-nil node != nil && forall(i, 0, len(node.Content), node.Content[i] != nil) && len(node.Content) % 2 == 0
+//@   modifies anynode.Anchor, anynode.Kind, anynode.Style, anynode.Tag, anynode.Value, anynode.Alias, anynode.Content
+//@   ensures @anchors-only-removed {C13} anchorsOnlyRemoved()
+//@   loop 1:
+//@     invariant anchorsOnlyRemoved() && fresh(newContent) && nodeList(newContent)
+//@   loop 2:
+//@     invariant anchorsOnlyRemoved() && fresh(newContent) && nodeList(newContent)
+//@   loop 3:
+//@     invariant anchorsOnlyRemoved() && nodeList(newContent) && fresh(newContent)
+
+//@ func applyAlias
+//@   props C13
+//@   nosafety
+//@   requires nodeList(newContent.MatchingNodes)
+//@   assume @children-non-nil implies(alias != nil, forall(i, 0, len(alias.Content), alias.Content[i] != nil))
+//@   modifies anynode.Anchor, anynode.Kind, anynode.Style, anynode.Tag, anynode.Value, anynode.Alias, anynode.Content, newContent.MatchingNodes.items
+//@   ensures @anchors-only-removed {C13} anchorsOnlyRemoved()
+//@   ensures @merge-needs-a-map {C13} implies(alias != nil && old(alias.Kind) != MappingNode, result != nil)
+//@   ensures implies(result == nil, nodeList(newContent.MatchingNodes))
+//@   loop 1:
+//@     invariant anchorsOnlyRemoved() && nodeList(newContent.MatchingNodes)
+
+//@ func overrideEntry
+//@   props C13
+//@   nosafety
+//@   requires nodeList(newContent.MatchingNodes)
+//@   assume @children-non-nil key != nil && value != nil
+//@   modifies anynode.Anchor, anynode.Kind, anynode.Style, anynode.Tag, anynode.Value, anynode.Alias, anynode.Content, newContent.MatchingNodes.items
+//@   ensures @anchors-only-removed {C13} anchorsOnlyRemoved()
+//@   ensures @value-is-exploded-whatever-happens-to-it {C13} implies(result == nil, value.Anchor == "")
+//@   ensures implies(result == nil, nodeList(newContent.MatchingNodes))
+//@   loop 1:
+//@     invariant anchorsOnlyRemoved() && value.Anchor == "" && nodeList(newContent.MatchingNodes)
+//@   loop 2:
+//@     invariant anchorsOnlyRemoved() && value.Anchor == "" && nodeList(newContent.MatchingNodes)
